@@ -2,7 +2,7 @@
 import subjects
 
 SPEC = dict(modules=["MemVerif.Props.C04", "MemVerif.Props.C04Lists", "MemVerif.Props.C04Pool"], gen_cfgs=("rwdi",),
-            assumptions=["memory_pool over the unordered and the ordered list: exact accounting for ALL histories (Props/C04Pool: capacity + live "
+            assumptions=["memory_pool over the unordered, the ordered and the small node list: exact accounting for ALL histories (Props/C04Pool: capacity + live "
                          "cells = cells of the blocks in use; nothing lost after everything is released; cycles without growth restore the "
                          "counter exactly) under the C01 environment hypotheses and n*node_size < 2^64",
                          "node-cycle no-growth theorem is for the unordered list; multi-array cycles on the unordered list can grow (documented "
